@@ -73,6 +73,27 @@ def build_source(cfg):
     return src + '\n'.join(out) + '\n'
 
 
+class MyDict(dict):
+    pass
+
+
+def retype(v, kind):
+    """Rebuild a JSON document with every dict replaced by a dict subclass."""
+    import collections
+    if isinstance(v, dict):
+        items = [(k, retype(x, kind)) for k, x in v.items()]
+        if kind == 'OrderedDict':
+            return collections.OrderedDict(items)
+        if kind == 'defaultdict':
+            return collections.defaultdict(None, items)      # no default factory: missing keys raise KeyError
+        if kind == 'subclass':
+            return MyDict(items)
+        return dict(items)
+    if isinstance(v, list):
+        return [retype(x, kind) for x in v]
+    return v
+
+
 def which(ns, n, v):
     for i in range(n):
         if type(v) is ns['K%d' % i]:
@@ -98,8 +119,10 @@ def main():
     pos = cfg['container']['position']
     n = len(cfg['members'])
 
+    kind = cfg.get('doc_type', 'dict')
+
     def load(nested_doc):
-        full = json.loads(json.dumps({'u': WRAP[pos](nested_doc)}))
+        full = retype(json.loads(json.dumps({'u': WRAP[pos](nested_doc)})), kind)
         c = fromdict(C, full)
         return UNWRAP[pos](c.u)
 
@@ -112,7 +135,7 @@ def main():
                 d = asdict(C(u=WRAP[pos](k)))
                 nested = UNWRAP[pos](d['u'])
                 r['dumped'] = canon(nested)
-                k2 = UNWRAP[pos](fromdict(C, json.loads(json.dumps(d))).u)
+                k2 = UNWRAP[pos](fromdict(C, retype(json.loads(json.dumps(d)), kind)).u)
                 r['loaded_member'] = which(ns, n, k2)
                 r['equal'] = bool(k2 == k) and type(k2) is K
                 r['loaded'] = canon(k2)
@@ -121,18 +144,24 @@ def main():
                 d = asdict(C(u=WRAP[pos](v)))
                 v2 = UNWRAP[pos](fromdict(C, json.loads(json.dumps(d))).u)
                 r['equal'] = (v2 == v and type(v2) is type(v))
+            elif op['op'] == 'alone_dump':       # earlier use: the member class dumped on its own
+                K = ns['K%d' % op['member']]
+                r['dumped'] = canon(asdict(K(**op['values'])))
+            elif op['op'] == 'alone_load':       # earlier use: the member class loaded on its own
+                K = ns['K%d' % op['member']]
+                r['loaded'] = canon(fromdict(K, retype(json.loads(json.dumps(op['doc'])), kind)))
             elif op['op'] == 'load':
                 k2 = load(op['doc'])
                 r['loaded_member'] = which(ns, n, k2)
                 r['loaded'] = canon(k2)
         except ParseError as e:
-            r = err_info(e)
+            r.update(err_info(e))       # keep what was observed before the error (e.g. the dump of a round trip)
             vt = e.kwargs.get('valid_tags')
             r['valid_tags'] = sorted(vt) if isinstance(vt, list) else None
             r['input_tag'] = e.kwargs.get('input_tag')
             r['tag_key'] = e.kwargs.get('tag_key')
         except BaseException as e:  # noqa
-            r = err_info(e)
+            r.update(err_info(e))
         out['ops'].append(r)
     json.dump(out, sys.stdout)
 
